@@ -38,7 +38,7 @@ const (
 var (
 	c12Ten33   = new(big.Int).Exp(big.NewInt(10), big.NewInt(33), nil)
 	c12One     = big.NewInt(1)
-	c12MaxViol = 12 // witnesses written per worker process and signature (all occurrences are counted)
+	c12MaxViol = 3 // witnesses written per worker process and signature (all occurrences are counted in violations/*)
 	c12Nviol   = map[string]int{}
 )
 
@@ -207,7 +207,11 @@ func (c *c12Runner) violate(rule string, fn string, detail string, w map[string]
 	sig := rule + "/" + fn
 	c.ctx.Res.Count("violations/"+sig, 1)
 	c.nviol[sig]++
-	if c.nviol[sig] > c12MaxViol {
+	max := c12MaxViol
+	if c.ctx.Thorough() {
+		max = 1 // hundreds of worker processes: one witness per signature and process is plenty
+	}
+	if c.nviol[sig] > max {
 		return
 	}
 	w["property"], w["rule"], w["site"], w["detail"] = "C12", rule, fn, detail
